@@ -670,15 +670,19 @@ func ParseSInterP(buf string) frt.Tuple2[string, []string] {
 	for i < end {
 		c := buf[i]
 		if c == '\\' {
-			// write though escape seq to Golang string literal.
-			// This is necessary for brace escape.
-			res.WriteByte(c)
 			i++
 			if i == end {
 				panic("escape just before end, wrong")
 			}
 			c2 := buf[i]
-			res.WriteByte(c2)
+			if c2 == '{' || c2 == '}' {
+				// escaped brace: a literal brace (golang string literal has no \{ escape).
+				res.WriteByte(c2)
+			} else {
+				// write though other escape seq to Golang string literal.
+				res.WriteByte(c)
+				res.WriteByte(c2)
+			}
 		} else if c == '{' {
 			i++
 			vbeg := i
